@@ -13,7 +13,7 @@ FUNCTIONS = [Scheduler._process_current_schedule, Scheduler._find_pred_allocatio
              Cluster._set_machine_occupied, Cluster.provision_ingest_resources, Task.do_work, Task.update_allocation]
 META = {
     'bounds': {'C01.adversary.machines': 3, 'C01.adversary.pools': '5^3 pool vectors by prelude', 'C01.adversary.proposals': '2 tasks -> any of 3 machines each (incl. the same one)',
-               'C01.adversary.workflow id': ['A', 'B', None], 'C01.adversary.horizon': '5 steps', 'C01.race': 'ingest demand 1..2, both creation orders'},
+               'C01.adversary.workflow id': ['A', 'B', None], 'C01.adversary.horizon': '6 steps', 'C01.adversary.follow-up': 'ingest of every machine still listed as available, one step after the proposals', 'C01.race': 'ingest demand 1..2, both creation orders'},
     'outside_bounds': ['rounds with more than 2 proposals', 'more than 3 machines'],
     'stubs': ['E9 adversarial proposal = solver-chosen machine indices', 'FakeCfg instead of JSON config'], 'assumptions': [],
 }
@@ -34,6 +34,13 @@ def adv_tag(p0, p1, p2, a, b, who, d1, d2):
         wit.reach('proposal-processed')
         try:
             sch._process_current_schedule({t1: m1, t2: m2}, {}, owner)
+            env.run(env.now + 1)
+            # honest follow-up in the next timestep: an ingest pipeline takes every machine the cluster still lists as
+            # available (the largest demand check_ingest_capacity admits) - none of them may be executing anything
+            g = len(c.get_available_resources())
+            if g and c.check_ingest_capacity(g, 3):
+                wit.reach('follow-up-ingest')
+                env.process(c.provision_ingest_resources(g, Obs('ing', 2)))
             for _ in range(5):
                 env.run(env.now + 1)
         except (RuntimeError, ValueError, KeyError):
@@ -67,7 +74,7 @@ def adv_ok(p1: int, p2: int, a: int, b: int, who: int, d1: int, d2: int) -> bool
 
 
 def d1_range(d1):
-    return d1 == 1 if PIN.get('quick') else 0 <= d1 <= 2
+    return d1 == 2 if PIN.get('quick') else 0 <= d1 <= 2     # 2: still running when the follow-up of the next step arrives
 
 
 def race_tag(p0, p1, p2, a, b, g, order, d1):
